@@ -2,17 +2,21 @@ package core
 
 import (
 	"bufio"
+	"bytes"
 	"crypto/sha256"
 	"encoding/hex"
 	"encoding/json"
 	"fmt"
 	"os"
 	"path/filepath"
+	"regexp"
 	"sort"
 	"strconv"
 	"strings"
 	"time"
 )
+
+var reScratch = regexp.MustCompile(`/tmp/v[a-z-]+[0-9]+`)
 
 // Finding is one line of known_findings.txt.
 type Finding struct {
@@ -150,9 +154,20 @@ func (c *Check) Violation(cas any, why string) {
 	c.violations++
 	payload := map[string]any{"property": c.ID, "tier": c.Tier, "seed": c.Seed, "why": why, "case": cas}
 	bs, _ := json.MarshalIndent(payload, "", " ")
-	h := sha256.Sum256(bs)
+	h := sha256.Sum256(reScratch.ReplaceAll(bs, []byte("/tmp/SCRATCH")))
 	dir := filepath.Join(Root(), "replays")
-	p := filepath.Join(dir, c.ID+"-"+hex.EncodeToString(h[:6])+".json")
+	name := c.ID + "-" + hex.EncodeToString(h[:6]) + ".json"
+	if want := os.Getenv("VERIF_REPLAY_FILE"); want != "" {
+		// replay mode: only the recorded case counts
+		rec, _ := os.ReadFile(want)
+		if !bytes.Equal(reScratch.ReplaceAll(rec, []byte("/tmp/SCRATCH")), reScratch.ReplaceAll(bs, []byte("/tmp/SCRATCH"))) {
+			c.violations--
+			return
+		}
+		fmt.Printf("VIOLATION property=%s replay=%s :: REPRODUCED %s\n", c.ID, want, trunc(why, 300))
+		return
+	}
+	p := filepath.Join(dir, name)
 	if c.violations <= 40 {
 		os.MkdirAll(dir, 0o755)
 		os.WriteFile(p, bs, 0o644)
